@@ -12,12 +12,12 @@ LEAN_MODULES = ["GoaktVerif.Props.C23"]
 THEOREMS = ["GoaktVerif.C23." + t for t in [
     "metadata_roundtrip", "mdMarshal_eq_spec", "legacyFrame_eq_spec", "metaFrame_eq_spec",
     "remainingOf_range", "remainingOf_eq_zero", "deadline_transfer", "deadline_none", "gen_remaining",
-    "roundtrip_server", "roundtrip_plain", "detect_legacy", "roundtrip_client", "client_long_name",
+    "roundtrip_server", "roundtrip_plain", "detect_legacy", "roundtrip_client", "client_long_name_ok",
     "concat_read", "concat_server", "concat_client", "clientMarshal_eq", "echo_pipeline",
     "decoders_total", "metadata_error", "alloc_limit",
     "unmarshal_eq_finish", "unmarshalWithMeta_eq_finish", "serverDecode_eq_finish", "clientDecode_eq",
     "gen_facts", "default_limit_ok", "pool_sizing",
-    "C23_partial", "C23_refuted",
+    "C23_holds",
 ]]
 GO2LEAN = {"targets": [
     {"kind": "const", "file": "internal/net/client.go", "name": "defaultMaxFrameSize", "lean": "defaultMaxFrameSize"},
@@ -575,13 +575,7 @@ def oracle(case, impl, judge):
 
 
 def classify(case, impl, why):
-    """C23-F1: Client.unmarshalProtoResponse on a metadata-format frame whose type name has 256
-    bytes or more (the heuristic's `nameLen < 256`) -> ErrUnknownMessageType.  Exactly that family:
-    an `rt c` case, metadata-format encoder (md != none), name >= 256 bytes, result E unknownType."""
-    f = case.split()
-    if (len(f) == 5 and f[0] == "rt" and f[1] == "c" and f[4] != "none" and len(f[2]) >= 512
-            and impl == "E unknownType" and why and "round trip failed" in why):
-        return "C23-F1"
+    # C23-F1 (client heuristic `nameLen < 256`) was repaired by fb98906; no open findings
     return None
 
 
@@ -598,7 +592,7 @@ def shrink(case):
 
 
 MANIFEST = {
-    "level_text": "Kernel-checked theorems over an executable byte-level model in which every Go slice expression and fixed-width read is a checked operation: (1) decode(encode) returns the same type name, payload bytes, header map and remaining-deadline field for ALL names/payloads/header maps within the wire limits, with and without metadata, at the server (handleConn's decode block: roundtrip_server) and at the client for legacy frames and names < 256 bytes (roundtrip_client); a legacy frame is rejected by the metadata parser with ErrInvalidMessageLength for every registry (detect_legacy; exact guard: frame limit < 65*2^24, the regenerated defaultMaxFrameSize satisfies it: gen_facts); (2) concatenated frames are read back one by one in order by the reader, the server loop and the client batch loop (concat_read/_server/_client, induction over the stream), and the whole SendBatchProto pipeline against an echoing server returns every message in order at both ends (echo_pipeline); (3) every decoder is total on every byte string, its bounds checks never fire, the metadata decoder has a single error, the requested buffer is within [8, maxFrameSize] (decoders_total, alloc_limit); (4) frame-pool sizing (pool_sizing) and the deadline arithmetic incl. the 0 -> -1 rule (deadline_transfer; gen_remaining ties the rule to the regenerated source for all int64 inputs). The full statement is REFUTED for the client decoder on metadata frames with type names >= 256 bytes (C23_refuted, finding C23-F1, replayed on the real code); C23_partial is the strongest true statement.",
+    "level_text": "Kernel-checked theorems over an executable byte-level model in which every Go slice expression and fixed-width read is a checked operation: (1) decode(encode) returns the same type name, payload bytes, header map and remaining-deadline field for ALL names/payloads/header maps within the wire limits, with and without metadata, at the server (handleConn's decode block: roundtrip_server) and at the client (unmarshalProtoResponse: roundtrip_client, any name length); a legacy frame is rejected by the metadata parser with ErrInvalidMessageLength for every registry (detect_legacy; exact guard: frame limit < 65*2^24, the regenerated defaultMaxFrameSize satisfies it: gen_facts); (2) concatenated frames are read back one by one in order by the reader, the server loop and the client batch loop (concat_read/_server/_client, induction over the stream), and the whole SendBatchProto pipeline against an echoing server returns every message in order at both ends (echo_pipeline); (3) every decoder is total on every byte string, its bounds checks never fire, the metadata decoder has a single error, the requested buffer is within [8, maxFrameSize] (decoders_total, alloc_limit); (4) frame-pool sizing (pool_sizing) and the deadline arithmetic incl. the 0 -> -1 rule (deadline_transfer; gen_remaining ties the rule to the regenerated source for all int64 inputs). The full statement holds (C23_holds); finding C23-F1 (client heuristic nameLen < 256) was repaired in /repo by fb98906 and is kept as a regression theorem (client_long_name_ok), a corpus case and a seeded reversal.",
     "level_note": "protobuf (Marshal/Unmarshal) and the type registry are parameters of the model (a message = type name + payload bytes); the differential resolves them against the implementation's answer in the order registry -> metadata -> payload (proved: *_eq_finish). Clock readings are arguments of the model; on the implementation the remaining-deadline field is checked against the wall-clock window measured around the call. Map iteration order is an argument (judge checks 'exists an order'). A 64-bit `int` is assumed. Sockets, timeouts, sync.Pool reuse and the handler dispatch after decoding are outside the model. The decode of 65535-entry maps is checked on the implementation by the spec oracle only (the list-based model is quadratic there).",
     "technique": "Lean 4 proofs over an executable byte-level model with explicit Go bounds checks, tied to the code by a differential run of the real serializer, metadata codec, frame reader, client heuristic and server read loop; wire constants and the remaining-deadline computation regenerated from the source by go2lean",
 }
